@@ -40,6 +40,9 @@ type kStep struct {
 	// EndedFirst: before the step proper, Bind is called with a context that has
 	// ended already, followed by Shutdown: error or success, nothing stays behind
 	EndedFirst bool `json:"ended_first,omitempty"`
+	// BindAgain (serve / listen): while the service is serving, Bind is called
+	// again with the same string; if it is refused nothing has changed
+	BindAgain bool `json:"bind_again,omitempty"`
 }
 
 type kHistory struct {
@@ -188,6 +191,9 @@ func kGen(seed int64, dir string) kHistory {
 		}
 		if r.Intn(8) == 0 && (st.Env == "none" || st.Env == "stale") {
 			st.EndedFirst = true
+		}
+		if (st.Mode == "serve" || st.Mode == "listen") && r.Intn(5) == 0 {
+			st.BindAgain = true
 		}
 		h.Steps = append(h.Steps, st)
 	}
@@ -465,6 +471,36 @@ func (k *kRunner) step(i int, st kStep) bool {
 		})
 		if !ok {
 			return false
+		}
+	}
+	// ---- a second Bind while serving: if it is refused, nothing has changed
+	if st.BindAgain && serving && bound && cl.kind == "valid" && foreign == nil {
+		err2, ok := k.guarded(i, "second Bind while serving", func() error { return k.svc.Bind(ctx, st.Addr) })
+		if !ok {
+			return false
+		}
+		k.count["bind-again.while-serving"]++
+		if err2 != nil {
+			if p != "" && !isSocket(p) {
+				k.fail(i, "socket-file", "socket-removed-by-refused-bind", "Bind(%q) while serving was refused (%v), but the socket %s of the running service is gone", st.Addr, err2, p)
+			}
+			err, ok := k.guarded(i, "NewConnection+GetInfo after the refused Bind", func() error {
+				cctx, cancel := context.WithTimeout(ctx, 15*time.Second)
+				defer cancel()
+				c, err := varlink.NewConnection(cctx, st.Addr)
+				if err != nil {
+					return fmt.Errorf("NewConnection: %v", err)
+				}
+				defer c.Close()
+				var product string
+				return c.GetInfo(cctx, nil, &product, nil, nil, nil)
+			})
+			if !ok {
+				return false
+			}
+			if err != nil {
+				k.fail(i, "reach", "client-does-not-reach-service-after-refused-bind", "Bind(%q) while serving was refused; afterwards a client given the same string fails: %v", st.Addr, err)
+			}
 		}
 	}
 	// ---- shut down; the serving call returns; the socket file is gone
